@@ -91,19 +91,20 @@ Emit == PrintT(<<"CASE", ToJson(CaseOf(c))>>)
 \* payload texts: marker + the class's characters (the concretiser XML-escapes them into attribute values / text)
 PayText == [pay_plain |-> "ZVMKplain", pay_quote |-> "ZVMK\"q", pay_backslash |-> "ZVMK\\b", pay_braces |-> "ZVMK{x}{{y",
             pay_lf |-> "ZVMK\nsecond", pay_cr |-> "ZVMK\rafter", pay_comment_end |-> "ZVMK*/ x", pay_comment_start |-> "ZVMK/* x",
-            pay_inject |-> "ZVMK\"; fn marker() {} //", pay_nonascii |-> "ZVMKäß€",
+            pay_inject |-> "ZVMK\"; fn marker() {} //", pay_nonascii |-> "ZVMKäß€", pay_nonxid |-> "²①ZVMK½",
             pay_num_plus |-> "+31337", pay_num_zeros |-> "0031337", pay_num_space |-> "  31337 ", pay_num_neg |-> "-31337",
             num1 |-> "1", addr_plain |-> "http://127.0.0.1:9/svc", act_plain |-> "http://zv.test/c14/act"]
 Vocab == [names |-> [pay_plain |-> [xml |-> PayText.pay_plain], pay_quote |-> [xml |-> PayText.pay_quote], pay_backslash |-> [xml |-> PayText.pay_backslash],
                      pay_braces |-> [xml |-> PayText.pay_braces], pay_lf |-> [xml |-> PayText.pay_lf], pay_cr |-> [xml |-> PayText.pay_cr],
                      pay_comment_end |-> [xml |-> PayText.pay_comment_end], pay_comment_start |-> [xml |-> PayText.pay_comment_start],
-                     pay_inject |-> [xml |-> PayText.pay_inject], pay_nonascii |-> [xml |-> PayText.pay_nonascii]],
+                     pay_inject |-> [xml |-> PayText.pay_inject], pay_nonascii |-> [xml |-> PayText.pay_nonascii], pay_nonxid |-> [xml |-> PayText.pay_nonxid]],
           uris |-> [Uplain |-> [uri |-> "http://zv.test/c14/plain"],
                     pay_plain |-> [uri |-> "http://zv.test/c14/" \o PayText.pay_plain], pay_quote |-> [uri |-> "http://zv.test/c14/" \o PayText.pay_quote],
                     pay_backslash |-> [uri |-> "http://zv.test/c14/" \o PayText.pay_backslash], pay_braces |-> [uri |-> "http://zv.test/c14/" \o PayText.pay_braces],
                     pay_lf |-> [uri |-> "http://zv.test/c14/" \o PayText.pay_lf], pay_cr |-> [uri |-> "http://zv.test/c14/" \o PayText.pay_cr],
                     pay_comment_end |-> [uri |-> "http://zv.test/c14/" \o PayText.pay_comment_end], pay_comment_start |-> [uri |-> "http://zv.test/c14/" \o PayText.pay_comment_start],
-                    pay_inject |-> [uri |-> "http://zv.test/c14/" \o PayText.pay_inject], pay_nonascii |-> [uri |-> "http://zv.test/c14/" \o PayText.pay_nonascii]],
+                    pay_inject |-> [uri |-> "http://zv.test/c14/" \o PayText.pay_inject], pay_nonascii |-> [uri |-> "http://zv.test/c14/" \o PayText.pay_nonascii],
+                    pay_nonxid |-> [uri |-> "http://zv.test/c14/" \o PayText.pay_nonxid]],
           texts |-> PayText]
 ASSUME PrintT(<<"VOCAB", ToJson(Vocab)>>)
 =======================================================================
